@@ -1,3 +1,8 @@
-From Coq Require Import List.
-Search skipn (_ + _)%nat.
-Search skipn app.
+From Coq Require Import ZArith List.
+From EV Require Import Res Arr Spans SpansSpec SpansBase SpansRef SpansKernels SpansSorted SpansOrder SpansReduce SpansIndexedReduce SpansMain FilterIndexSort.
+Check @list_neqb_spec. Check @get_spans_for_multi_fields_ref. Check @check_if_sorted_ref. Print zrange.
+Check @apply_spans_min_pf. Check @apply_spans_first_pf. Check @string_argmin_pf. Check @apply_spans_count_ref.
+Check @is_spans_range_pf. Check @is_spans_valid_pf. Check @map_res_ok. Check @np_take_ok.
+Search spans_ref is_spans.
+Search valid_spans spans_ref.
+Search indexed_rows.
